@@ -38,6 +38,10 @@ type Phase struct {
 }
 
 type Case struct {
+	// TornTail: after a quiet kill of all nodes (every node has applied every write), the last record of
+	// this node's log that spans a 512-byte sector boundary loses its sectors from that boundary on - the
+	// state a kill leaves when it lands between two write() calls of the record being appended.
+	TornTail  int     `json:"torn_tail,omitempty"`
 	SnapCount int     `json:"snap_count"` // 0 = the default (10000): no snapshot is ever taken
 	CatchUp   int     `json:"catch_up"`
 	Phases    []Phase `json:"phases"`
@@ -326,10 +330,22 @@ func execCase(c Case) kit.Outcome {
 			wg.Wait()
 		} else {
 			wg.Wait()
+			if c.TornTail > 0 {
+				// every node must hold every entry before one log is torn (the torn record then belongs
+				// to a write that a majority still has)
+				_ = cl.WaitServing(20*time.Second, []int{1, 2, 3})
+			}
 			kill()
 		}
 		close(stop)
 		seq++
+		if c.TornTail > 0 && pi == 0 {
+			if msg := tearTail(filepath.Join(cl.Nodes[c.TornTail-1].Dir, fmt.Sprintf("raftexample-%d", c.TornTail))); msg != "" {
+				o.Labels = append(o.Labels, "torn-tail:"+msg)
+			} else {
+				o.Labels = append(o.Labels, "torn-tail:applied")
+			}
+		}
 		if p.DownWriters > 0 && len(p.Kill) == 1 {
 			// the survivors keep taking writes (incl. PERSIST of volatile keys) while one node is down
 			stop = make(chan struct{})
@@ -629,6 +645,82 @@ func genSnapshotLoad(t *rapid.T) Case {
 
 func TestSnapshotUnderLoad(t *testing.T) {
 	kit.Check(t, kit.Spec[Case]{Sub: "crash", Quick: 1, Thorough: 12, Gen: genSnapshotLoad, Exec: execCase, NoShrink: !kit.Thorough()})
+}
+
+// tearTail zeroes the tail of the newest WAL segment from a sector boundary inside one of its last
+// records to the end of the written data. Returns "" when a record was torn.
+func tearTail(walDir string) string {
+	names, _ := filepath.Glob(filepath.Join(walDir, "*.wal"))
+	if len(names) == 0 {
+		return "no wal segment"
+	}
+	sort.Strings(names)
+	f := names[len(names)-1]
+	b, err := os.ReadFile(f)
+	if err != nil {
+		return err.Error()
+	}
+	// walk the frames: 8-byte little-endian length field (low 56 bits = record bytes, bit 63 set => bits 56-58 = padding)
+	type rec struct{ s, e int }
+	var recs []rec
+	off := 0
+	for off+8 <= len(b) {
+		l := int64(0)
+		for i := 7; i >= 0; i-- {
+			l = l<<8 | int64(b[off+i])
+		}
+		if l == 0 {
+			break
+		}
+		n := int(uint64(l) & 0x00ffffffffffffff)
+		pad := 0
+		if l < 0 {
+			pad = int((uint64(l) >> 56) & 0x7)
+		}
+		end := off + 8 + n + pad
+		if n <= 0 || end > len(b) {
+			break
+		}
+		recs = append(recs, rec{off, end})
+		off = end
+	}
+	if len(recs) < 4 {
+		return "too few records"
+	}
+	endOfData := recs[len(recs)-1].e
+	for i := len(recs) - 1; i >= len(recs)-6 && i > 2; i-- {
+		bnd := (recs[i].s/512 + 1) * 512
+		if bnd < recs[i].e && bnd > recs[i].s+8 {
+			for j := bnd; j < endOfData; j++ {
+				b[j] = 0
+			}
+			if err := os.WriteFile(f, b, 0o600); err != nil {
+				return err.Error()
+			}
+			return ""
+		}
+	}
+	return "no record spans a sector boundary"
+}
+
+// genTornCase: quiet kill of everything, one node's log gets a torn final record, everything restarts.
+func genTornCase(t *rapid.T) Case {
+	c := Case{TornTail: 1 + rapid.IntRange(0, 2).Draw(t, "node")}
+	p := Phase{PerWriter: rapid.SampledFrom([]int{15, 40}).Draw(t, "per"), Kinds: "all", Kill: []int{1, 2, 3}, Restart: rapid.Permutation([]int{1, 2, 3}).Draw(t, "restart")}
+	nw := rapid.IntRange(2, 6).Draw(t, "writers")
+	for w := 0; w < nw; w++ {
+		p.Writers = append(p.Writers, 1+rapid.IntRange(0, 2).Draw(t, "wnode"))
+	}
+	c.Phases = []Phase{p}
+	return c
+}
+
+func TestTornLogTail(t *testing.T) {
+	q := 0
+	if kit.Shard()%2 == 0 {
+		q = 1
+	}
+	kit.Check(t, kit.Spec[Case]{Sub: "crash", Quick: q, Thorough: 6, Gen: genTornCase, Exec: execCase, NoShrink: !kit.Thorough()})
 }
 
 func TestMajorityLosesTail(t *testing.T) {
